@@ -1,5 +1,7 @@
 // Per-run report: counters, label histogram, samples, failures -> JSON fragment for ./check.
 #pragma once
+#include <exception>
+#include <unistd.h>
 #include <cstdint>
 #include <cstdio>
 #include <cstdlib>
@@ -118,8 +120,22 @@ inline void on_sanitizer_death() {
   r->fail("sanitizer-abort: while executing [" + r->current_detail + "] (sanitizer report is in the job log)", r->current_case, "sanitizer");
   r->write("sanitizer-abort");
 }
+// std::terminate (an exception escaping a noexcept function, a second exception during unwinding ...): the case
+// that was running is recorded as a failure and the process exits like a failed replay.
+inline void on_terminate() {
+  Report* r = global_report();
+  static bool once = false;
+  if (r && !once) {
+    once = true;
+    r->fail("terminate: std::terminate was called while executing [" + r->current_detail + "] (an exception escaped a noexcept function?)", r->current_case, "terminate");
+    r->write("terminated");
+  }
+  fprintf(stderr, "std::terminate called\n");
+  _exit(1);
+}
 inline void install_report(Report* r) {
   global_report() = r;
+  std::set_terminate(on_terminate);
 #if defined(__has_feature)
 #if __has_feature(address_sanitizer) || __has_feature(thread_sanitizer)
   __sanitizer_set_death_callback(on_sanitizer_death);
